@@ -661,6 +661,8 @@ def prop_haf(case, ctx):
         classes.append("mult_ge14")
     if n >= 20:
         classes.append("total_ge20")
+    if sum(1 for x in occ if x) >= 11:
+        classes.append("haf_reduced_dim_gt10")
 
     if batch:
         occs = []
@@ -736,9 +738,20 @@ def _warm_haf():
 
 @st.composite
 def occupation_pattern(draw, batch=False):
-    style = draw(st.sampled_from(["many", "many", "few", "few", "pair", "zero", "single"]))
+    style = draw(st.sampled_from(["many", "many", "few", "few", "pair", "zero", "single",
+                                  "wide"]))
     if style == "zero":
         occ = [0] * draw(st.integers(1, 5))
+    elif style == "wide":
+        # >= 6 distinct edges: the reduced matrix is larger than 10 x 10, which switches on
+        # the rescaling branch of the power-trace hafnians (needs more than 10 modes)
+        d = draw(st.integers(12, 14))
+        occ = [1] * d
+        for _ in range(d - 12):
+            occ[draw(st.integers(0, d - 1))] = 0
+        if draw(st.booleans()):
+            occ[draw(st.integers(0, d - 1))] += 1
+            occ[draw(st.integers(0, d - 1))] += 1
     elif style == "single":
         occ = [draw(st.integers(0, 24))]
     elif style == "many":
